@@ -120,6 +120,10 @@ func zzExporter13NotFromPublicData() {
 	}
 	// RFC 8446 section 7.5: HKDF-Expand-Label(Derive-Secret(exporter_master_secret, label, ""), "exporter", Hash(""), L)
 	zzsymAssert(len(zzPHashKeys) > 0 || len(zzExpandCalls) == 2, "exporter13_two_expand_steps")
+	for i := range zzExpandCalls {
+		// an HKDF keyed with an empty secret yields a constant anybody can compute from the label alone
+		zzsymAssert(len(zzExpandCalls[i].secret) > 0, "exporter13_hkdf_keyed_with_empty_secret")
+	}
 	if len(zzExpandCalls) == 2 {
 		zzsymAssert(zzsymEqBytes(zzExpandCalls[0].secret, st.KeySchedule.ExporterMasterSecret), "exporter13_keyed_with_exporter_master_secret")
 		zzsymAssert(zzExpandCalls[0].label == "EXTRACTOR-dtls_srtp", "exporter13_first_label_is_exporter_label")
